@@ -2,7 +2,7 @@
 
 use crate::async_vfs::{AsyncFileSystem, AsyncVfsPath, SeekAndRead};
 use crate::error::VfsErrorKind;
-use crate::{VfsMetadata, VfsResult};
+use crate::{VfsFileType, VfsMetadata, VfsResult};
 
 use async_std::io::Write;
 use async_trait::async_trait;
@@ -94,6 +94,44 @@ impl AsyncOverlayFS {
         }
         Err(VfsErrorKind::Other("Parent path does not exist".into()).into())
     }
+
+    /// Makes sure the entry that the union shows at `path` has a copy in the write layer
+    /// (with the timestamps of the original where the write layer can set them)
+    async fn copy_up(&self, path: &str) -> VfsResult<AsyncVfsPath> {
+        let write_path = self.write_path(path)?;
+        let read_path = self.read_path(path).await?;
+        if write_path.exists().await? {
+            return Ok(write_path);
+        }
+        self.ensure_has_parent(path).await?;
+        let metadata = read_path.metadata().await?;
+        match metadata.file_type {
+            VfsFileType::Directory => write_path.create_dir().await?,
+            VfsFileType::File => read_path.copy_file(&write_path).await?,
+        }
+        if let Some(time) = metadata.created {
+            ignore_unsupported(write_path.set_creation_time(time).await)?;
+        }
+        if let Some(time) = metadata.modified {
+            ignore_unsupported(write_path.set_modification_time(time).await)?;
+        }
+        if let Some(time) = metadata.accessed {
+            ignore_unsupported(write_path.set_access_time(time).await)?;
+        }
+        Ok(write_path)
+    }
+}
+
+fn ignore_unsupported(result: VfsResult<()>) -> VfsResult<()> {
+    match result {
+        Err(err) if matches!(err.kind(), VfsErrorKind::NotSupported) => Ok(()),
+        other => other,
+    }
+}
+
+/// true if the setter failed because the write layer has no entry at the path
+fn missing_in_write_layer(result: &VfsResult<()>) -> bool {
+    matches!(result, Err(err) if matches!(err.kind(), VfsErrorKind::FileNotFound))
 }
 
 #[async_trait]
@@ -195,15 +233,30 @@ impl AsyncFileSystem for AsyncOverlayFS {
     }
 
     async fn set_creation_time(&self, path: &str, time: SystemTime) -> VfsResult<()> {
-        self.write_path(path)?.set_creation_time(time).await
+        let result = self.write_path(path)?.set_creation_time(time).await;
+        if missing_in_write_layer(&result) {
+            // the entry may live in a lower layer only: copy it up first
+            return self.copy_up(path).await?.set_creation_time(time).await;
+        }
+        result
     }
 
     async fn set_modification_time(&self, path: &str, time: SystemTime) -> VfsResult<()> {
-        self.write_path(path)?.set_modification_time(time).await
+        let result = self.write_path(path)?.set_modification_time(time).await;
+        if missing_in_write_layer(&result) {
+            // the entry may live in a lower layer only: copy it up first
+            return self.copy_up(path).await?.set_modification_time(time).await;
+        }
+        result
     }
 
     async fn set_access_time(&self, path: &str, time: SystemTime) -> VfsResult<()> {
-        self.write_path(path)?.set_access_time(time).await
+        let result = self.write_path(path)?.set_access_time(time).await;
+        if missing_in_write_layer(&result) {
+            // the entry may live in a lower layer only: copy it up first
+            return self.copy_up(path).await?.set_access_time(time).await;
+        }
+        result
     }
 
     async fn exists(&self, path: &str) -> VfsResult<bool> {
